@@ -242,6 +242,8 @@ func TestCheck(t *testing.T) {
 	}
 
 	t.Run("boundaries", func(t *testing.T) { boundaries(t, rec) })
+	t.Run("name-collisions", func(t *testing.T) { collisions(t, rec) })
+	ev.RapidCheck(t, "eval-sessions", ev.N(1500, 30000), 3, func(rt *rapid.T) { evalSession(rt, rec) })
 
 	profs := profiles()
 	ev.RapidCheck(t, "mutated-programs", ev.N(3000, 50000), 1, func(rt *rapid.T) {
@@ -493,6 +495,162 @@ func boundaries(t *testing.T, rec *ev.Rec) {
 	rec.Note("boundary_cases", len(boundaryCases()))
 }
 
+// collisions enumerates every pair (first binding form of a name, second binding / use form of the same
+// name) x (same scope, nested block, nested function): symbols of different kinds (global, const literal,
+// builtin cached in the root table, param, free variable ...) meeting in one scope.
+func collisions(t *testing.T, rec *ev.Rec) {
+	first := map[string]string{
+		"global":       "global N",
+		"const-lit":    "const N = 1",
+		"const-expr":   "const N = [1]",
+		"param":        "param N",
+		"define":       "N := 1",
+		"var":          "var N",
+		"builtin-used": "len(\"a\")", // N = len
+		"import":       "N := import(\"m0\")",
+		"func":         "N := func() { return 1 }",
+		"iota-const":   "const (N = iota; N2)",
+	}
+	second := map[string]string{
+		"define":          "N := 2",
+		"var":             "var N = 2",
+		"const":           "const N = 2",
+		"destruct-define": "N, zz := [1, 2]",
+		"destruct-assign": "var zz; N, zz = [1, 2]",
+		"destruct-all":    "N, N = [1, 2]",
+		"assign":          "N = 3",
+		"compound":        "N += 1",
+		"incdec":          "N++",
+		"forin-value":     "for _, N in [1] { N }",
+		"forin-key":       "for N, _ in [1] { N }",
+		"for-init":        "for N := 0; N < 1; N++ { }",
+		"catch":           "try { throw 1 } catch N { N }",
+		"try-const-catch": "try { const N = 1 } catch N { }",
+		"func-param":      "func(N) { return N }(1)",
+		"closure-use":     "func() { return N }()",
+		"closure-assign":  "func() { N = 5 }()",
+		"closure-define":  "func() { N, q := [1, 2]; return N }()",
+		"global-again":    "global N",
+		"index-assign":    "N.x = 1",
+		"call":            "N(1)",
+		"if-init":         "if N := 1; N > 0 { }",
+	}
+	wrap := map[string]func(a, b string) string{
+		"same-scope":   func(a, b string) string { return a + "\n" + b + "\nreturn 1" },
+		"nested-block": func(a, b string) string { return a + "\nif true {\n" + b + "\n}\nreturn 1" },
+		"nested-func":  func(a, b string) string { return a + "\nf := func() {\n" + b + "\n}\nf()\nreturn 1" },
+		"both-in-func": func(a, b string) string { return "f := func() {\n" + a + "\n" + b + "\n}\nreturn f()" },
+		"second-first": func(a, b string) string { return b + "\n" + a + "\nreturn 1" },
+	}
+	reported := map[string]bool{}
+	n := 0
+	for fn, a := range first {
+		name := "nm"
+		if fn == "builtin-used" {
+			name = "len"
+		}
+		for sn, b := range second {
+			for wn, w := range wrap {
+				if (fn == "global" || fn == "param") && wn == "both-in-func" {
+					continue
+				}
+				src := strings.ReplaceAll(w(a, b), "N2", "nm2")
+				src = strings.ReplaceAll(src, "N", name)
+				for _, o := range []optSet{{Modules: true}, {NoOptimize: true, Modules: true}} {
+					n++
+					rec.Case()
+					sig, what, _ := judge(rec, []byte(src), o, nil, nil, "collision")
+					if sig != "" {
+						sig = sig + ":collision"
+						kind := fmt.Sprintf("collision:%s/%s/%s", fn, sn, wn)
+						if !rec.Violation(sig, fmt.Sprintf("[%s, %s] %s\n--- input ---\n%s", kind, o, what, src), mkCase([]byte(src), o, nil, kind)) && !reported[sig] {
+							reported[sig] = true
+							t.Errorf("[%s, %s] %s: %s\n%s", kind, o, sig, firstLines(what, 6), src)
+						}
+						continue
+					}
+					rec.NonTriv(src + o.String())
+					rec.Class("collision-ok")
+				}
+			}
+		}
+	}
+	rec.Note("collision_cases", n)
+}
+
+var evalFragments = []string{
+	"a := 1", "b := a + 1", "c := func() { return a }", "c()", "a = 5", "a, b2 := [1, 2]", "const k = 3", "k + 1",
+	"m := import(\"m0\")", "m.f(1)", "import(\"m1\").v", "import(\"m0\")", "mm := import(\"m1\"); nosuch", "import(\"nope\")", "import(\"cyc1\")",
+	"import(\"broken\")", "nosuch", "1 +", "x := 1 / 0", "throw \"e\"", "try { throw 1 } catch e { e } finally { }", "global g", "g = 1", "g, h := [1, 2]",
+	"for i := 0; i < 2; i++ { a += i }", "if a > 0 { z := 1 }", "var (p, q = 2)", "len := 1", "len(\"x\")", "f := func(x, ...y) { return y }; f(1, 2)", "return 7", "param z",
+	"const (k1 = iota; k2)", "k2", "a.b.c = 1", "undefined.x", "[1, 2][5]", "func() { return import(\"m0\") }()", "x, y := func() { return 1, 2 }()", "",
+}
+
+func runEvalFrags(frags []string, noopt bool) (pan, stack string, at int) {
+	defer func() {
+		if p := recover(); p != nil {
+			pan = fmt.Sprint(p)
+			stack = string(debug.Stack())
+		}
+	}()
+	e := ugo.NewEval(ugo.CompilerOptions{ModuleMap: moduleMap(nil), NoOptimize: noopt}, nil)
+	for i, f := range frags {
+		at = i
+		ctx, cancel := context.WithTimeout(context.Background(), 500*time.Millisecond)
+		_, _, _ = e.Run(ctx, []byte(f))
+		cancel()
+	}
+	return "", "", -1
+}
+
+func evalSession(rt *rapid.T, rec *ev.Rec) {
+	n := 2 + gen.Uniform(rt, 6, "nfrag")
+	var frags []string
+	for i := 0; i < n; i++ {
+		frags = append(frags, evalFragments[gen.Uniform(rt, len(evalFragments), "frag")])
+	}
+	noopt := gen.Uniform(rt, 2, "noopt") == 0
+	rec.Case()
+	type res struct {
+		pan, stack string
+		at         int
+	}
+	ch := make(chan res, 1)
+	go func() {
+		var r res
+		defer func() {
+			if p := recover(); p != nil {
+				r.pan = fmt.Sprint(p)
+				r.stack = string(debug.Stack())
+			}
+			ch <- r
+		}()
+		e := ugo.NewEval(ugo.CompilerOptions{ModuleMap: moduleMap(nil), NoOptimize: noopt}, nil)
+		for i, f := range frags {
+			r.at = i
+			ctx, cancel := context.WithTimeout(context.Background(), 500*time.Millisecond)
+			_, _, _ = e.Run(ctx, []byte(f))
+			cancel()
+		}
+		r.at = -1
+	}()
+	select {
+	case r := <-ch:
+		if r.pan != "" {
+			what := fmt.Sprintf("Eval session panicked at fragment %d: %s\nfragments: %q\n%s", r.at, r.pan, frags, firstLines(r.stack, 24))
+			c := mkCase([]byte(strings.Join(frags, "\n---\n")), optSet{NoOptimize: noopt, Eval: true, Modules: true}, nil, "eval-session")
+			if rec.Violation("eval-session:"+panicSig(r.pan, r.stack), what, c) {
+				return
+			}
+			rt.Fatalf("%s", what)
+		}
+		rec.NonTriv(strings.Join(frags, "\x00"))
+		rec.Class("eval-session")
+	case <-time.After(20 * time.Second):
+		rec.Inconcl("eval-session-watchdog")
+	}
+}
+
 func min(a, b int) int {
 	if a < b {
 		return a
@@ -513,6 +671,18 @@ func runReplays(t *testing.T, rec *ev.Rec) {
 			continue
 		}
 		rec.Case()
+		if c.Kind == "eval-session" {
+			pan, stack, at := runEvalFrags(strings.Split(string(src), "\n---\n"), c.Opt.NoOptimize)
+			if pan != "" {
+				what := fmt.Sprintf("replay %s: Eval session panicked at fragment %d: %s\n%s", rf.Path, at, pan, firstLines(stack, 24))
+				if !rec.Violation("eval-session:"+panicSig(pan, stack), what, c) {
+					t.Errorf("%s", what)
+				}
+			} else {
+				rec.Class("replay-pass")
+			}
+			continue
+		}
 		var st *ugo.SymbolTable
 		if c.Opt.Reuse {
 			st = ugo.NewSymbolTable()
